@@ -49,6 +49,10 @@ def main():
             shutil.copytree(seeded, os.path.join(scratch, "SEEDED"), dirs_exist_ok=True)
             for f in rs:
                 shutil.copy(f, os.path.join(scratch, "tests", os.path.basename(f)))
+            # data / helper files the demonstration expects next to itself in tests/
+            for f in demos:
+                if os.path.isfile(f) and f not in rs and not os.path.exists(os.path.join(scratch, "tests", os.path.basename(f))):
+                    shutil.copy(f, os.path.join(scratch, "tests", os.path.basename(f)))
             tests = [os.path.splitext(os.path.basename(f))[0] for f in rs]
             with_patch = []
             for t in tests:
